@@ -7550,6 +7550,23 @@ int cgi_check_location(int dim, CGNS_ENUMT(ZoneType_t) type,
 int cgi_read_int_data(double id, char_33 data_type, cgsize_t cnt, cgsize_t *data)
 {
     cgsize_t n;
+    int ndim;
+    cgsize_t size, dim_vals[CGIO_MAX_DIMENSIONS];
+
+    /* cgio_read_all_data_type delivers what the dimensions of the node say
+       there is; data has room for cnt values */
+    if (cgio_get_dimensions(cg->cgio, id, &ndim, dim_vals)) {
+        cg_io_error("cgio_get_dimensions");
+        return CG_ERROR;
+    }
+    size = ndim > 0 ? cgi_element_count(ndim, dim_vals) : 0;
+    if (size <= 0 || size > cnt) {
+        cgi_error("node holds %" PRIdCGSIZE " values where %" PRIdCGSIZE
+            " are expected", size, cnt);
+        return CG_ERROR;
+    }
+    /* and no more than that is there to convert */
+    cnt = size;
 
 #if CG_SIZEOF_SIZE == 64
     if (0 == strcmp(data_type, "I4")) {
